@@ -210,6 +210,10 @@ def c04(scn, run):
             if pool:
                 spec = _spec_limit(scn, [p for p, _ in pool], e["stop"])
                 if e["mfo"] is None and e["limit"] != spec:
+                    if e["limit"] == e["stop"] and limit == e["stop"] and not e["changed"]:
+                        return (f"runahead limit kept at the stop point {e['limit']} although the earliest pool point moved back "
+                                f"(specification gives {spec} for pool points {sorted({p for p, _ in pool})}, "
+                                f"P{scn['runahead']}): the limit is not recomputed once it equals the stop point")
                     return (f"runahead limit {e['limit']} but the specification gives {spec} for pool points "
                             f"{sorted({p for p, _ in pool})}, P{scn['runahead']}, stop {e['stop']}")
             limit = e["limit"]
@@ -593,5 +597,198 @@ def c20(scn, run):
     return None
 
 
-ORACLES = {"C20": c20, "C31": c31, "C46": c46, "C45": c45, "C06": c06, "C19": c19, "C43": c43, "C01": c01, "C02": c02, "C03": c03, "C04": c04, "C07": c07, "C09": c09, "C11": c11,
+IMPLIED = {"succeeded": {"submitted", "started"}, "failed": {"submitted", "started"}, "started": {"submitted"}}
+
+
+def _ticks(trace):
+    """split a trace into per-iteration slices: [(tick number, [events])]"""
+    out, cur, n = [], [], None
+    for e in trace:
+        if e["e"] == "tick":
+            if cur:
+                out.append((n, cur))
+            cur, n = [], e["n"]
+        cur.append(e)
+    if cur:
+        out.append((n, cur))
+    return out
+
+
+def _required(scn, t):
+    opt = S.optmap(scn)
+    return {o for (tt, o), v in opt.items() if tt == t and not v}
+
+
+def c29(scn, run):
+    """cylc set: outputs + implied outputs completed, never submitted/running by force, children spawned
+    with the prerequisite satisfied; --pre satisfies only prerequisites the task has"""
+    g = S.instance_graph(scn)["inst"]
+    tr = run["trace"]
+    for e in tr:
+        if e["e"] == "state" and e.get("forced") and e["new"][0] in ("submitted", "running") and e["old"][0] != e["new"][0]:
+            return f"{e['id']} forced into the {e['new'][0]} state by cylc set"
+        if e["e"] == "force_sat":
+            inst = g.get(tuple(e["id"]))
+            if inst is not None:
+                have = {(a["id"][0], a["id"][1], a["out"]) for ex in inst["prereqs"] for a in S.atoms_c(ex)}
+                for k in e["new"]:
+                    if (k[0], k[1], _norm_out(k[2])) not in have:
+                        return f"cylc set/trigger satisfied {k} on {e['id']}, which is not one of its prerequisites"
+    ticks = _ticks(tr)
+    for ti, (n, evs) in enumerate(ticks):
+        ops = [e["op"] for e in evs if e["e"] == "op" and e["op"]["cmd"] == "set" and e["op"]["args"].get("prerequisites") is None]
+        if not ops or len([e for e in evs if e["e"] == "op"]) != 1:
+            continue      # keep attribution simple: one command in this iteration
+        op = ops[0]
+        pnt, name = op["args"]["tasks"][0].split("/")
+        tid_ = [int(pnt), name]
+        if tuple(tid_) not in g:
+            continue
+        if any(e["e"] in ("restarted", "crash", "shutdown") for e in evs):
+            continue
+        forced_out = [o for e in evs if e["e"] == "output" and e.get("forced") and e["id"] == tid_ for o in e["out"]]
+        all_out_now = set()
+        for (m, evs2) in ticks[:ti + 1]:
+            for e in evs2:
+                if e["e"] == "output" and e["id"] == tid_:
+                    all_out_now |= {_norm_out(o) for o in e["out"]}
+        want = op["args"].get("outputs")
+        if want is None:
+            want = sorted(_required(scn, name)) or ["submitted", "started", "succeeded"]
+        # an active task with a --flow mismatch etc. may ignore the command: only judge when it acted
+        acted = bool(forced_out) or all(w in all_out_now for w in want)
+        if not acted:
+            continue
+        for w in want:
+            need = {w} | IMPLIED.get(w, set())
+            if not need <= all_out_now:
+                return f"cylc set {tid_} --out={want}: outputs {sorted(need - all_out_now)} are not complete afterwards"
+        # children of the newly completed outputs exist (or finished before) with that prerequisite satisfied
+        snap = [e for e in evs if e["e"] == "tick_end"]
+        if not snap:
+            continue
+        pool = {tuple(t["id"]): t for t in snap[-1]["snap"]["tasks"]}
+        gone = {tuple(e["t"]["id"]) for (m, evs2) in ticks[:ti + 1] for e in evs2 if e["e"] == "remove"}
+        none = {tuple(e["id"]) for e in evs if e["e"] == "spawn_none"}
+        for o in {_norm_out(x) for x in forced_out}:
+            for child in g[tuple(tid_)]["children"].get(o, []):
+                c = tuple(child)
+                if c in pool:
+                    sat = {(k[0], k[1], _norm_out(k[2])) for pre in pool[c]["prereqs"] for k, v in pre if v}
+                    if (tid_[0], tid_[1], o) not in sat:
+                        return f"cylc set {tid_}:{o}: child {list(c)} is in the pool but its prerequisite on it is not satisfied"
+                elif c not in gone and c not in none and c[0] <= scn["fcp"] and c[0] >= scn.get("startcp", scn["icp"]):
+                    return f"cylc set {tid_}:{o}: child {list(c)} was not spawned"
+    return None
+
+
+def c30(scn, run):
+    """cylc remove: the instance leaves the pool, naturally satisfied prerequisites of its children are unset,
+    a later incarnation starts from scratch, no stale hold is left behind"""
+    g = S.instance_graph(scn)["inst"]
+    ticks = _ticks(run["trace"])
+    removed_ever = set()
+    hold_cmds = set()
+    for ti, (n, evs) in enumerate(ticks):
+        for e in evs:
+            if e["e"] == "cmd_hold":
+                hold_cmds |= {tuple(i) for i in e["ids"]}
+            elif e["e"] in ("cmd_release", ):
+                hold_cmds -= {tuple(i) for i in e["ids"]}
+            elif e["e"] == "cmd_release_hold_point":
+                hold_cmds.clear()
+        rm = [tuple(i) for e in evs if e["e"] == "cmd_remove" for i in e["ids"]]
+        is_remove_cmd = any(e["e"] == "op" and e["op"]["cmd"] == "remove_tasks" for e in evs)
+        if not rm or not is_remove_cmd or any(e["e"] in ("restarted", "crash", "shutdown") for e in evs):
+            continue
+        removed_ever |= set(rm)
+        snap = [e for e in evs if e["e"] == "tick_end"]
+        if not snap:
+            continue
+        sn = snap[-1]["snap"]
+        pool = {tuple(t["id"]): t for t in sn["tasks"]}
+        respawned = {tuple(e["t"]["id"]) for e in evs if e["e"] == "add"}
+        for x in rm:
+            if x in pool and x not in respawned:
+                return f"cylc remove {list(x)}: the instance is still in the pool"
+            for t in sn["tasks"]:
+                if tuple(t["id"]) in respawned:
+                    continue
+                forced = {tuple(k) for k in t.get("fsat", [])}
+                for pre in t["prereqs"]:
+                    for k, v in pre:
+                        if v and (k[0], k[1]) == x and tuple(k) not in forced and k[0] >= scn["icp"] \
+                                and t["status"] == "waiting" and not any(
+                                    ee["e"] == "output" and ee["id"] == list(x) for ee in evs
+                                    if evs.index(ee) > max(i for i, q in enumerate(evs) if q["e"] == "cmd_remove")):
+                            return (f"cylc remove {list(x)}: {t['id']} still has its prerequisite {k} satisfied "
+                                    f"(it was satisfied naturally by the removed instance)")
+            if [x[0], x[1]] in sn["to_hold"] and x not in hold_cmds and not (sn["hold_point"] is not None and x[0] > sn["hold_point"]):
+                return (f"cylc remove {list(x)} (an active task) left {list(x)} in the set of held instances: "
+                        f"killing the job of the already removed task holds it")
+    # a later incarnation of a removed instance starts from scratch
+    seen_removed = set()
+    for e in run["trace"]:
+        if e["e"] == "cmd_remove":
+            seen_removed |= {tuple(i) for i in e["ids"]}
+        elif e["e"] == "spawn" and tuple(e["t"]["id"]) in seen_removed:
+            t = e["t"]
+            if t["outputs"] or t["status"] != "waiting":
+                return f"{t['id']} was removed (history erased) but respawned with status {t['status']} and outputs {t['outputs']}"
+            seen_removed.discard(tuple(t["id"]))
+    return None
+
+
+def c28(scn, run):
+    """group trigger: each member runs at most once per trigger; live group-start members are left alone;
+    members with in-group prerequisites run only after those were satisfied after the trigger"""
+    g = S.instance_graph(scn)["inst"]
+    ticks = _ticks(run["trace"])
+    all_ops = [e["op"] for e in run["trace"] if e["e"] == "op"]
+    trig_ops = [o for o in all_ops if o["cmd"] == "force_trigger_tasks"]
+    if len(trig_ops) != 1 or any(o["cmd"] in ("remove_tasks", "set", "restart", "crash") for o in all_ops):
+        return None        # judged only on scenarios with a single trigger command (attribution)
+    op = trig_ops[0]
+    group = {(int(x.split("/")[0]), x.split("/")[1]) for x in op["args"]["tasks"]}
+    group = {m for m in group if m in g}
+    t_idx = next(i for i, (n, evs) in enumerate(ticks) if any(e["e"] == "op" and e["op"] is op for e in evs))
+    before = {}
+    for (n, evs) in ticks[:t_idx]:
+        for e in evs:
+            if e["e"] in ("tick_end", "started"):
+                before = {tuple(t["id"]): t for t in e["snap"]["tasks"]}
+    subs_after = {}
+    out_after = set()
+    order = []
+    for (n, evs) in ticks[t_idx:]:
+        for e in evs:
+            if e["e"] == "submit":
+                for p, nme, sn in e["jobs"]:
+                    subs_after[(p, nme)] = subs_after.get((p, nme), 0) + 1
+                    order.append(("sub", (p, nme), set(out_after)))
+            elif e["e"] == "output":
+                for o in e["out"]:
+                    out_after.add((e["id"][0], e["id"][1], _norm_out(o)))
+    tries = scn.get("tries", {})
+    for m in group:
+        in_group_parents = [a for ex in g[m]["prereqs"] for a in S.atoms_c(ex) if tuple(a["id"]) in group and not a["pre"]]
+        live = m in before and before[m]["status"] in ("preparing", "submitted", "running")
+        if live and not in_group_parents and subs_after.get(m, 0) > 0 and tries.get(m[1], 1) == 1:
+            return f"group-start member {list(m)} had a live job ({before[m]['status']}) but was submitted again by the trigger"
+        if subs_after.get(m, 0) > tries.get(m[1], 1):
+            return f"member {list(m)} was submitted {subs_after[m]} times after one trigger"
+    for kind, m, outs in order:
+        if m in group:
+            for ex in g[m]["prereqs"]:
+                grp_atoms = [a for a in S.atoms_c(ex) if tuple(a["id"]) in group and not a["pre"]]
+                if not grp_atoms:
+                    continue
+                ok = S.eval_c(ex, lambda a: (tuple(a["id"]) not in group) or (a["id"][0], a["id"][1], a["out"]) in outs)
+                if not ok:
+                    return (f"member {list(m)} was submitted before its in-group prerequisite {ex} was satisfied "
+                            f"by outputs completed after the trigger")
+    return None
+
+
+ORACLES = {"C28": c28, "C29": c29, "C30": c30, "C20": c20, "C31": c31, "C46": c46, "C45": c45, "C06": c06, "C19": c19, "C43": c43, "C01": c01, "C02": c02, "C03": c03, "C04": c04, "C07": c07, "C09": c09, "C11": c11,
            "C25": c25, "C26": c26}
